@@ -39,18 +39,23 @@ static bool next_defined(const u32 *mem, u32 pc, u32 a, u32 o) {
 }
 
 static void emit_run(FILE *out, const std::string &id, const std::vector<u32> &img, const std::string &input, long maxclocks) {
-  VerilatedContext ctx;
-  const char *noargs[] = {"rtl_sys"};
-  ctx.commandArgs(1, noargs);
-  ctx.randReset(0);
-  MODEL top{&ctx, "TOP"};
+  // one model for all runs of a process: the registers are put back by the reset pulses below, the memory by undoing what the last run
+  // loaded and changed (the whole memory is still compared after every run, so nothing a run does to it goes unseen)
+  static VerilatedContext ctx;
+  static bool inited = false;
+  if (!inited) { const char *noargs[] = {"rtl_sys"}; ctx.commandArgs(1, noargs); ctx.randReset(0); inited = true; }
+  static MODEL top{&ctx, "TOP"};
+  static std::vector<u32> before(MEMDEPTH, 0);
+  static std::vector<u32> dirty;
+  static bool first_use = true;
   auto &memq = MEMQ(top);
-  for (u32 i = 0; i < MEMDEPTH; i++) memq[i] = i < img.size() ? img[i] : 0;
-  std::vector<u32> before(MEMDEPTH);
-  for (u32 i = 0; i < MEMDEPTH; i++) before[i] = memq[i];
+  if (first_use) { for (u32 i = 0; i < MEMDEPTH; i++) memq[i] = 0; first_use = false; }
+  for (u32 a : dirty) { memq[a] = 0; before[a] = 0; }
+  dirty.clear();
+  for (u32 i = 0; i < img.size() && i < MEMDEPTH; i++) if (img[i]) { memq[i] = img[i]; before[i] = img[i]; dirty.push_back(i); }
   fprintf(out, "{\"id\":\"%s\",\"img\":[", id.c_str());
   bool f1 = true;
-  for (u32 i = 0; i < MEMDEPTH; i++) if (memq[i]) { fprintf(out, "%s[%d,%d]", f1 ? "" : ",", (int)i, (int)memq[i]); f1 = false; }
+  for (u32 i = 0; i < img.size() && i < MEMDEPTH; i++) if (img[i]) { fprintf(out, "%s[%d,%d]", f1 ? "" : ",", (int)i, (int)img[i]); f1 = false; }
   fprintf(out, "],\"input\":[");
   for (size_t q = 0; q < input.size(); q++) fprintf(out, "%s%d", q ? "," : "", (int)(unsigned char)input[q]);
   fprintf(out, "],\"steps\":[");
@@ -89,9 +94,8 @@ static void emit_run(FILE *out, const std::string &id, const std::vector<u32> &i
     first = false;
     if (exiting) { status = "exit"; break; }
   }
-  top.final();
   std::vector<std::pair<u32, u32>> diff, fo;
-  for (u32 i = 0; i < MEMDEPTH; i++) if (memq[i] != before[i]) diff.push_back({i, memq[i]});
+  for (u32 i = 0; i < MEMDEPTH; i++) if (memq[i] != before[i]) { diff.push_back({i, memq[i]}); dirty.push_back(i); }
   for (int k = 0; k < 8; k++) for (auto &p : ofile[k]) fo.push_back(p);
   fprintf(out, "],\"status\":\"%s\",\"ret\":%d,\"n\":%ld,\"out\":", status.c_str(), ret, n);
   jarr(out, o0);
@@ -200,6 +204,18 @@ int main(int argc, char **argv) {
     std::vector<u32> img(hdr, 0);
     for (u32 i = 0; i < hdr && 4 + 4 * (size_t)i + 4 <= bin.size(); i++) memcpy(&img[i], bin.data() + 4 + 4 * i, 4);
     emit_run(out, argc > 6 ? argv[6] : argv[2], img, input, maxclocks);
+    fclose(out);
+    return 0;
+  }
+  if (m == "seqs" && argc >= 7) {
+    // rtl_sys seqs <from> <to> <stride> <maxclocks> <out.ndjson>: the enumerated short sequences of progen.hpp
+    long from = atol(argv[2]), to = atol(argv[3]), stride = atol(argv[4]), maxclocks = atol(argv[5]);
+    FILE *out = fopen(argv[6], "w");
+    if (to > SEQ_TOTAL) to = SEQ_TOTAL;
+    for (long i = from; i < to; i += stride) {
+      GenProg g = seq_program(i);
+      emit_run(out, "seq" + std::to_string(i), g.img, g.input, maxclocks);
+    }
     fclose(out);
     return 0;
   }
